@@ -284,7 +284,10 @@ func (dcc *dataConditionsContainer) finalize(r *Reader, queryPartIndex int, prev
 			if r.root.regex, err = binaryregexp.Compile(e.Regex); err != nil {
 				return nil, err
 			}
-			prefix, complete := r.root.regex.LiteralPrefix()
+			prefix, complete, err := literalPrefix(r.root.regex, e.Regex)
+			if err != nil {
+				return nil, err
+			}
 			r.root.prefix = []byte(prefix)
 			if complete {
 				r.root.acceptedLength = regexanalysis.AcceptedLengths{
@@ -388,7 +391,10 @@ func (dcc *dataConditionsContainer) finalize(r *Reader, queryPartIndex int, prev
 				if root.regex, err = binaryregexp.Compile(regex); err != nil {
 					return nil, err
 				}
-				prefix, complete := root.regex.LiteralPrefix()
+				prefix, complete, err := literalPrefix(root.regex, regex)
+				if err != nil {
+					return nil, err
+				}
 				root.prefix = []byte(prefix)
 				if complete {
 					root.acceptedLength = regexanalysis.AcceptedLengths{
@@ -510,6 +516,18 @@ func (dcc *dataConditionsContainer) finalize(r *Reader, queryPartIndex int, prev
 	}
 
 	return append(filters, makeDataConditionFilter(dataSources, possibleSubQueries, dcc.conditions, dcc.regexes)), nil
+}
+
+// literalPrefix returns the literal prefix that find may scan for. The scan cuts
+// the data in front of the prefix (and, if the prefix is the complete expression,
+// behind it), an assertion would then see a wrong start or end of the data:
+// "abc" is reported as the complete prefix of ^abc$.
+func literalPrefix(re *binaryregexp.Regexp, expr string) (string, bool, error) {
+	if hasAssertion, err := regexanalysis.HasAssertion(expr); err != nil || hasAssertion {
+		return "", false, err
+	}
+	prefix, complete := re.LiteralPrefix()
+	return prefix, complete, nil
 }
 
 func (p *progressVariant) find(buffers [2][]byte, dir uint8) []int {
@@ -710,7 +728,10 @@ func (ps *progressGroup) prepare(r *regex, pIdx int, e *query.DataConditionEleme
 	if p.regex, err = binaryregexp.Compile(expr); err != nil {
 		return p, err
 	}
-	prefix, complete := p.regex.LiteralPrefix()
+	prefix, complete, err := literalPrefix(p.regex, expr)
+	if err != nil {
+		return p, err
+	}
 	p.prefix = []byte(prefix)
 	if complete {
 		p.acceptedLength = regexanalysis.AcceptedLengths{
